@@ -1,6 +1,6 @@
 (* C17 -- equivalent XML spellings give identical results (entity part and pre-parse rewriting).
    Only statements, `exact`, Print Assumptions. *)
-From MC Require Import Lib.Base Gen.Entities Gen.RefEntities Model.Prep Proofs.PrepP.
+From MC Require Import Lib.Base Gen.Entities Gen.RefEntities Model.Prep Proofs.PrepP Gen.AssureSets Model.Trim Proofs.TrimP.
 Local Open Scope N_scope.
 
 (* Every one of the table's names means what the HTML5/W3C reference says (up to the documented leading space
@@ -44,3 +44,16 @@ Print Assumptions unknown_entity_err.
 Theorem plain_text_untouched : forall s, memN AMP s = false -> subst_entities s = (s, []).
 Proof. exact L_plain_text_untouched. Qed.
 Print Assumptions plain_text_untouched.
+
+(* trim_element, the first thing done to the parsed XML (token names regenerated from the source), for EVERY document:
+   the same document without its comments and processing instructions -- wherever they stand, between elements, inside
+   the text of a token, inside HTML embedded in a token -- and without the text between elements (indentation, stray
+   words) trims to the same tree (an empty token text and no text are the same thing downstream) *)
+Theorem comments_pis_and_stray_text_do_not_matter : forall t, erase (trim (bare false t)) = erase (trim t).
+Proof. exact L_spelling_does_not_matter. Qed.
+Print Assumptions comments_pis_and_stray_text_do_not_matter.
+
+(* blanks, tabs and line ends in front of a token's text do not matter (inside, every run counts as one blank) *)
+Theorem leading_blanks_do_not_matter : forall pad s, forallb is_ws pad = true -> norm_ws (pad ++ s) = norm_ws s.
+Proof. exact L_leading_blanks_do_not_matter. Qed.
+Print Assumptions leading_blanks_do_not_matter.
